@@ -4,6 +4,7 @@ import Driver.Api
 import Driver.Deriv
 import Driver.Ecp
 import Driver.Bessel
+import Driver.Quad
 /-! Model driver.  Single-line requests: first token selects the layer.
 Multi-line requests: `begin <layer>` … `end`. -/
 
@@ -24,6 +25,7 @@ inductive Mode
   | idle
   | api (q : Driver.Api.Req)
   | deriv (q : Driver.Deriv.Req)
+  | quad (q : Driver.Quad.Req)
 
 partial def loop (h : IO.FS.Stream) (out : IO.FS.Stream) (m : Mode) : IO Unit := do
   let line ← h.getLine
@@ -32,6 +34,7 @@ partial def loop (h : IO.FS.Stream) (out : IO.FS.Stream) (m : Mode) : IO Unit :=
   match m, toks with
   | .idle, ["begin", "api"] => loop h out (.api {})
   | .idle, ["begin", "deriv"] => loop h out (.deriv {})
+  | .idle, ["begin", "quad"] => loop h out (.quad {})
   | .idle, _ =>
     for l in dispatch toks do out.putStrLn l
     loop h out .idle
@@ -45,6 +48,11 @@ partial def loop (h : IO.FS.Stream) (out : IO.FS.Stream) (m : Mode) : IO Unit :=
     out.putStrLn "end"
     loop h out .idle
   | .deriv q, _ => loop h out (.deriv (Driver.Deriv.feed q toks))
+  | .quad q, ["end"] =>
+    for l in Driver.Quad.finish q do out.putStrLn l
+    out.putStrLn "end"
+    loop h out .idle
+  | .quad q, _ => loop h out (.quad (Driver.Quad.feed q toks))
 
 def main : IO Unit := do
   let out ← IO.getStdout
